@@ -38,7 +38,7 @@ def czs(l):
 def correspondence(ctx, gen_ok):
     import skfem
     rng = np_seed(ctx, 18)
-    reix_cases, tag_cases, fac_cases, split_cases, ext_cases, join_cases, carry_cases, remap_cases = [], [], [], [], [], [], [], []
+    reix_cases, tag_cases, fac_cases, split_cases, ext_cases, join_cases, carry_cases, remap_cases, vmap_cases = [], [], [], [], [], [], [], [], []
     # (a) _reix on arbitrary index matrices
     base = skfem.MeshTri1()
     for k in range(ctx.n(40, 200)):
@@ -53,6 +53,20 @@ def correspondence(ctx, gen_ok):
         inp = f'({clist([czs(c) for c in p.T.astype(int).tolist()])}, {cmat_nat(ix)})'
         out = f'({clist([czs(c) for c in pp.T.astype(int).tolist()])}, {cmat_nat(tt)}, {cnats(uu)})'
         reix_cases.append((inp, out, ('reix', nr, nc, len(uu))))
+    # (a2) second-order meshes: restrict renumbers all nodes of the kept elements; the vertex map is reduced to the vertices
+    for k in range(ctx.n(8, 40)):
+        name2 = ['MeshTri2', 'MeshQuad2', 'MeshTet2', 'MeshHex2'][k % 4]
+        base2 = rand_mesh1({'MeshTri2': 'MeshTri1', 'MeshQuad2': 'MeshQuad1', 'MeshTet2': 'MeshTet1', 'MeshHex2': 'MeshHex1'}[name2],
+                           rng, size=[2, 2] if k % 4 < 2 else [2, 2, 2], integer=True, holes=False)
+        m2 = getattr(skfem, name2).from_mesh(base2)
+        el = np.sort(rng.choice(m2.t.shape[1], size=int(rng.integers(1, m2.t.shape[1] + 1)), replace=False)).astype(np.int32)
+        ed = m2.dofs.element_dofs
+        pp, tt, uu = m2._reix(ed[:, el])
+        M2, vmap = m2.restrict(el, return_mapping=True)
+        p2 = clist([czs(c) for c in np.round(2 * m2.p.T).astype(int).tolist()])
+        pp2 = clist([czs(c) for c in np.round(2 * pp.T).astype(int).tolist()])
+        reix_cases.append((f'({p2}, {cmat_nat(ed[:, el])})', f'({pp2}, {cmat_nat(tt)}, {cnats(uu)})', ('reix2', name2, len(el), len(uu))))
+        vmap_cases.append((f'({cnat(m2.t.shape[0])}, {cmat_nat(ed)}, {cnats(el)})', cnats(vmap), ('vmap', name2, len(el))))
     # (b, c) restrict: new tags and the facet table of the restricted mesh
     for k in range(ctx.n(40, 300)):
         name = ['MeshTri1', 'MeshQuad1', 'MeshTet1', 'MeshHex1'][k % 4]
@@ -74,7 +88,7 @@ def correspondence(ctx, gen_ok):
         for nm, b in bnd.items():
             tag_cases.append((f'(inr ({cnat(nf)}, {cmat_nat(m.t2f)}, {cnats(el)}, {cnats(np.asarray(b))}))',
                               czs(np.asarray(M.boundaries[nm])), ('bnd', name, kk, len(b))))
-        fac_cases.append((f'({cmat_nat(m.t)}, {cmat_nat(m.t2f)}, {cmat_nat(m.facets.T)}, {cnats(el)})',
+        fac_cases.append((f'({cmat_nat(m.dofs.element_dofs)}, {cmat_nat(m.t2f)}, {cmat_nat(m.facets.T)}, {cnats(el)})',
                           f'({cmat_nat(M.t)}, {cmat_nat(M.facets.T)})', ('facets', name, kk, nt)))
         if k < 2:
             ctx.sample({'kind': 'restrict correspondence', 'class': name, 'elements': el.tolist(),
@@ -98,6 +112,9 @@ def correspondence(ctx, gen_ok):
                             ('hex_to_meshtet', None, h.t.shape[1])))
         tr = rand_mesh1('MeshTri1', rng, size=[2, int(rng.integers(2, 4))], integer=True, holes=False)
         nl = int(rng.integers(2, 5))
+        if k % 2:                                        # unused trailing points: the layers are shifted by p.shape[1]
+            from dataclasses import replace as _rep
+            tr = _rep(tr, doflocs=np.hstack((tr.p, 70.0 + rng.integers(0, 9, size=(2, int(rng.integers(1, 3)))))))
         w = tr * skfem.MeshLine1(np.array([np.arange(nl, dtype=float)]))
         ext_cases.append((f'({cnat(tr.p.shape[1])}, {cnat(nl)}, {cmat_nat(tr.t)})', cmat_nat(w.t), ('extrude', nl, tr.t.shape[1])))
         split_cases.append((f'(inr ({cnat(1)}, {cmat_nat(w.t)}))', f'({cmat_nat(w.to_meshtet().t)}, [])',
@@ -200,6 +217,8 @@ Definition split (c : (nat * (nat * nat) * mat nat * list nat) + (nat * mat nat)
   | inr (0, t) => (split_rows t gen_hex_split, [])
   | inr (_, t) => (split_rows t gen_wedge_split, [])
   end.
+Definition vmap (c : nat * mat nat * list nat) : list nat :=
+  let '(M, edofs, el) := c in gen_restrict_vertex_map M (gen_restrict_ix 0 edofs el).
 Definition extr (c : nat * nat * mat nat) : mat nat := let '(nv, nl, t) := c in extrude_t nv nl t.
 Definition keys_eqb := list_eqb zs_eqb.
 Definition maybe_sort (srt : nat) (t : mat nat) : mat nat :=
@@ -233,6 +252,7 @@ Definition carry (c : (nat * mat nat * mat nat * list nat) +
                          defs=defs, nontrivial=lambda r: 2 <= r[2]),
         lambda: ctx.corr('splits', imp, 'split', '(pair_eqb natss_eqb nats_eqb)', split_cases, defs=defs,
                          nontrivial=lambda r: r[2] >= 2),
+        lambda: ctx.corr('restrict_vertex_map', imp, 'vmap', 'nats_eqb', vmap_cases, defs=defs, nontrivial=lambda r: r[2] >= 2),
         lambda: ctx.corr('extrude', imp, 'extr', 'natss_eqb', ext_cases, defs=defs, nontrivial=lambda r: r[1] >= 3),
         lambda: ctx.corr('join_and_dedupe', imp, 'joined', '(pair_eqb keys_eqb natss_eqb)', join_cases, defs=defs,
                          nontrivial=lambda r: r[2] < 2 * r[3] if r[0] == 'join' else r[2] < r[3]),
@@ -327,6 +347,12 @@ def regressions(ctx, rng):
         # unused trailing points through to_meshtri('x')
         q = O.tagged_mesh('MeshQuad1', rng)
         run_op(ctx, O.op_to_meshtri_unused, q, rng)
+        # second-order meshes through restrict / remove_unused_nodes
+        b = O.tagged_mesh(['MeshTri1', 'MeshQuad1', 'MeshTet1', 'MeshHex1'][it % 4], rng, holes=False,
+                          size=[2, 3] if it % 4 < 2 else [2, 2, 2])
+        run_op(ctx, O.op_second_order, b, rng)
+        # extrusion of a mesh with unused trailing points
+        run_op(ctx, O.op_extrude_unused, O.tagged_mesh('MeshTri1', rng, holes=False), rng)
 
 
 # ------------------------------------------------------------------------------ the check
